@@ -66,6 +66,9 @@ fn reencode<M: Fragment + Debug>(m: &M) -> Vec<u8> {
 
 // ------------------------------------------------------------------ old stack
 async fn old_recv_loop<M: Fragment + Debug + Send + Sync + 'static>(mut buf: mux::ChannelBuffer, cap: usize) -> RunRes {
+    old_recv_loop_on::<M>(&mut buf, cap).await
+}
+async fn old_recv_loop_on<M: Fragment + Debug + Send + Sync + 'static>(buf: &mut mux::ChannelBuffer, cap: usize) -> RunRes {
     let mut msgs = Vec::new();
     loop {
         if msgs.len() >= cap { return RunRes { msgs, status: 3, info: "cap".into() }; }
@@ -106,6 +109,59 @@ fn run_old<M: Fragment + Debug + Send + Sync + 'static>(rt: &Runtime, proto: u16
         };
         writer.abort();
         let _ = writer.await;
+        running.abort().await;
+        Ok(res)
+    })
+}
+
+/// a consumer that polls: after each segment recv_full_msg is called under a short timeout
+/// (the future is dropped when it expires) until it timed out twice in a row; after the
+/// last segment the bearer is closed and the consumer waits.  Returns the run result and
+/// the event script (true = poll, false = the next segment was handed over).
+fn run_old_poll<M: Fragment + Debug + Send + Sync + 'static>(rt: &Runtime, proto: u16, as_server: bool, segs: &[Vec<u8>], cap: usize)
+    -> Result<(RunRes, Vec<bool>), ToolError> {
+    let segs = segs.to_vec();
+    rt.block_on(async move {
+        let (a, b) = tokio::net::UnixStream::pair().map_err(|e| ToolError(format!("socketpair: {e}")))?;
+        let mut plexer = mux::Plexer::new(mux::Bearer::Unix(b));
+        let (chan, wire_proto) = if as_server { (plexer.subscribe_server(proto), proto) }
+                                 else { (plexer.subscribe_client(proto), proto ^ 0x8000) };
+        let running = plexer.spawn();
+        let job = tokio::spawn(async move {
+            let mut a = a;
+            let mut buf = mux::ChannelBuffer::new(chan);
+            let mut msgs: Vec<Vec<u8>> = Vec::new();
+            let mut script: Vec<bool> = Vec::new();
+            let n = segs.len();
+            for (i, s) in segs.iter().enumerate() {
+                if a.write_all(&header(wire_proto, s.len(), i as u32)).await.is_err() || a.write_all(s).await.is_err() {
+                    return (RunRes { msgs, status: 4, info: "harness write failed".into() }, script);
+                }
+                script.push(false);
+                if i + 1 == n { break; }
+                let mut timeouts = 0;
+                while timeouts < 2 {
+                    if msgs.len() >= cap { return (RunRes { msgs, status: 3, info: "cap".into() }, script); }
+                    script.push(true);
+                    match tokio::time::timeout(Duration::from_millis(5), buf.recv_full_msg::<M>()).await {
+                        Err(_) => timeouts += 1,            // abandoned while waiting for more
+                        Ok(Ok(m)) => { msgs.push(reencode(&m)); timeouts = 0; }
+                        Ok(Err(mux::Error::Decoding(e))) => return (RunRes { msgs, status: 1, info: e }, script),
+                        Ok(Err(e)) => return (RunRes { msgs, status: 4, info: format!("{e:?}") }, script),
+                    }
+                }
+            }
+            let _ = a.flush().await;
+            let _ = a.shutdown().await;
+            drop(a);
+            let mut rest = old_recv_loop_on::<M>(&mut buf, cap.saturating_sub(msgs.len())).await;
+            msgs.append(&mut rest.msgs);
+            (RunRes { msgs, status: rest.status, info: rest.info }, script)
+        });
+        let res = match job.await {
+            Ok(r) => r,
+            Err(e) => (RunRes { msgs: vec![], status: 5, info: format!("panic in recv_full_msg: {e}") }, vec![]),
+        };
         running.abort().await;
         Ok(res)
     })
@@ -539,6 +595,16 @@ fn n_msg(rng: &mut Rng, which: usize, sz: Size) -> AnyMessage {
         }
     }
 }
+/// a new-stack message carrying a byte payload (chainsync header, blockfetch block, tx body, leios block)
+fn n_filler(which: usize, b: Vec<u8>) -> AnyMessage {
+    match which {
+        2 => AnyMessage::ChainSync(np::chainsync::Message::RollForward(np::chainsync::HeaderContent { variant: 6, byron_prefix: None, cbor: b },
+                                   np::chainsync::Tip(np::Point::Origin, 7))),
+        5 => AnyMessage::TxSubmission(np::txsubmission::Message::ReplyTxs(vec![np::txsubmission::EraTxBody(6, b)])),
+        7 => AnyMessage::LeiosFetch(np::leiosfetch::Message::Block(AnyCbor::from_encode(minicbor::bytes::ByteVec::from(b)))),
+        _ => AnyMessage::BlockFetch(np::blockfetch::Message::Block(b)),
+    }
+}
 const NEW_NAMES: [&str; 8] = ["handshake", "keepalive", "chainsync", "peersharing", "blockfetch", "txsubmission", "leiosnotify", "leiosfetch"];
 
 // ------------------------------------------------------------------ protocol table (old stack)
@@ -548,6 +614,8 @@ struct OldProto {
     gen: Box<dyn Fn(&mut Rng, Size) -> Option<Vec<u8>>>,       // encoding of a random message (None: not a one-shot round trip)
     run: Box<dyn Fn(&Runtime, bool, &[Vec<u8>], usize) -> Result<RunRes, ToolError>>,
     sent: Box<dyn Fn(&Runtime, &[Vec<u8>]) -> Result<RunRes, ToolError>>,
+    poll: Box<dyn Fn(&Runtime, bool, &[Vec<u8>], usize) -> Result<(RunRes, Vec<bool>), ToolError>>,
+    filler: Option<Box<dyn Fn(usize, u8) -> Vec<u8>>>,   // encoding of a message carrying a byte payload of that length
 }
 fn old_proto<M: Fragment + Debug + Send + Sync + 'static>(name: &'static str, proto: u16, gen: fn(&mut Rng, Size) -> M) -> OldProto {
     OldProto {
@@ -563,7 +631,59 @@ fn old_proto<M: Fragment + Debug + Send + Sync + 'static>(name: &'static str, pr
         }),
         run: Box::new(move |rt, as_server, segs, cap| run_old::<M>(rt, proto, as_server, segs, cap)),
         sent: Box::new(move |rt, encs| run_old_sent::<M>(rt, proto, encs)),
+        poll: Box::new(move |rt, as_server, segs, cap| run_old_poll::<M>(rt, proto, as_server, segs, cap)),
+        filler: None,
     }
+}
+fn with_filler<M: Fragment + 'static>(mut p: OldProto, make: fn(Vec<u8>) -> M) -> OldProto {
+    p.filler = Some(Box::new(move |len, fill| minicbor::to_vec(&make(vec![fill; len])).unwrap_or_default()));
+    p
+}
+/// an encoding of exactly `target` bytes from a constructor parameterised by its payload length
+fn fit(target: usize, make: &dyn Fn(usize) -> Vec<u8>) -> Option<Vec<u8>> {
+    let mut len = target.saturating_sub(16);
+    for _ in 0..5 {
+        let e = make(len);
+        if e.len() == target { return Some(e); }
+        let want = len as i64 + target as i64 - e.len() as i64;
+        if want < 0 { return None; }
+        len = want as usize;
+    }
+    None
+}
+/// message lists whose byte stream ends exactly at the end of a FULL (65535-byte) segment:
+/// (name, messages, segments)
+fn full_segment_streams(rng: &mut Rng, small: &mut dyn FnMut(&mut Rng) -> Option<Vec<u8>>, filler: &dyn Fn(usize, u8) -> Vec<u8>)
+    -> Vec<(&'static str, Vec<Vec<u8>>, Vec<Vec<u8>>)> {
+    let mut out = Vec::new();
+    let fill = rng.byte();
+    let mut smalls = |rng: &mut Rng, k: usize| -> Vec<Vec<u8>> { let mut v = Vec::new(); let mut t = 0; while v.len() < k && t < 30 { t += 1; if let Some(e) = small(rng) { v.push(e); } } v };
+    // one message of exactly 65535 bytes; one of exactly 2 x 65535
+    for (name, total) in [("one-full-segment", 65535usize), ("two-full-segments", 131070)] {
+        if let Some(e) = fit(total, &|l| filler(l, fill)) { let segs = e.chunks(65535).map(|c| c.to_vec()).collect(); out.push((name, vec![e], segs)); }
+    }
+    // small messages, then a filler that ends the full segment; and the filler first, small ones packed behind it
+    let npre = rng.range(1, 3) as usize;
+    let pre = smalls(rng, npre);
+    let plen: usize = pre.iter().map(|e| e.len()).sum();
+    if plen < 60000 {
+        if let Some(e) = fit(65535 - plen, &|l| filler(l, fill)) {
+            let mut ms = pre.clone(); ms.push(e.clone());
+            out.push(("small-then-filler-one-full-segment", ms.clone(), vec![ms.concat()]));
+            let mut ms2 = vec![e]; ms2.extend(pre.clone());
+            out.push(("filler-then-small-one-full-segment", ms2.clone(), vec![ms2.concat()]));
+        }
+        // a stream of 65535 + r bytes: the first r bytes cut at random, the last segment full
+        if let Some(e) = fit(65535 + rng.range(1, 40) as usize, &|l| filler(l, fill)) {
+            let mut ms = pre.clone(); ms.push(e);
+            let stream = ms.concat();
+            let r = stream.len() - 65535;
+            let mut segs = cut(&stream[..r], &random_cuts(rng, r));
+            segs.push(stream[r..].to_vec());
+            out.push(("random-cuts-then-full-last-segment", ms, segs));
+        }
+    }
+    out
 }
 
 /// strict RFC 8949 well-formedness: length of the first item of `b`, if it is complete and well-formed
@@ -672,17 +792,23 @@ fn main() {
     let rt = tokio::runtime::Builder::new_multi_thread().worker_threads(4).enable_all().build().expect("tokio runtime");
 
     let olds: Vec<OldProto> = vec![
-        old_proto("chainsync-n2n", mp::PROTOCOL_N2N_CHAIN_SYNC, o_chainsync_n2n),
-        old_proto("chainsync-n2c", mp::PROTOCOL_N2C_CHAIN_SYNC, o_chainsync_n2c),
-        old_proto("blockfetch", mp::PROTOCOL_N2N_BLOCK_FETCH, o_blockfetch),
-        old_proto("txsubmission", mp::PROTOCOL_N2N_TX_SUBMISSION, o_txsub),
+        with_filler(old_proto("chainsync-n2n", mp::PROTOCOL_N2N_CHAIN_SYNC, o_chainsync_n2n),
+            |b| mp::chainsync::Message::RollForward(mp::chainsync::HeaderContent { variant: 6, byron_prefix: None, cbor: b }, mp::chainsync::Tip(mp::Point::Origin, 7))),
+        with_filler(old_proto("chainsync-n2c", mp::PROTOCOL_N2C_CHAIN_SYNC, o_chainsync_n2c),
+            |b| mp::chainsync::Message::RollForward(mp::chainsync::BlockContent(b), mp::chainsync::Tip(mp::Point::Origin, 7))),
+        with_filler(old_proto("blockfetch", mp::PROTOCOL_N2N_BLOCK_FETCH, o_blockfetch), |b| mp::blockfetch::Message::Block { body: b }),
+        with_filler(old_proto("txsubmission", mp::PROTOCOL_N2N_TX_SUBMISSION, o_txsub),
+            |b| mp::txsubmission::Message::<mp::txsubmission::EraTxId, mp::txsubmission::EraTxBody>::ReplyTxs(vec![mp::txsubmission::EraTxBody(6, b)])),
         old_proto("keepalive", mp::PROTOCOL_N2N_KEEP_ALIVE, o_keepalive),
         old_proto("peersharing", mp::PROTOCOL_N2N_PEER_SHARING, o_peersharing),
         old_proto("handshake-n2n", mp::PROTOCOL_N2N_HANDSHAKE, o_hs_n2n),
         old_proto("handshake-n2c", mp::PROTOCOL_N2C_HANDSHAKE, o_hs_n2c),
-        old_proto("localstate", mp::PROTOCOL_N2C_STATE_QUERY, o_localstate),
-        old_proto("localtxsubmission", mp::PROTOCOL_N2C_TX_SUBMISSION, o_localtx),
-        old_proto("txmonitor", mp::PROTOCOL_N2C_TX_MONITOR, o_txmonitor),
+        with_filler(old_proto("localstate", mp::PROTOCOL_N2C_STATE_QUERY, o_localstate),
+            |b| mp::localstate::Message::Result(AnyCbor::from_encode(minicbor::bytes::ByteVec::from(b)))),
+        with_filler(old_proto("localtxsubmission", mp::PROTOCOL_N2C_TX_SUBMISSION, o_localtx),
+            |b| { let m: LtsMsg = mp::localtxsubmission::Message::SubmitTx(mp::localtxsubmission::EraTx(6, b)); m }),
+        with_filler(old_proto("txmonitor", mp::PROTOCOL_N2C_TX_MONITOR, o_txmonitor),
+            |b| mp::txmonitor::Message::ResponseNextTx(Some((6, pallas_codec::utils::TagWrap::new(b.into()))))),
     ];
     let mut skipped_codec = 0u64;
     let mut not_single = 0u64;
@@ -788,6 +914,46 @@ fn main() {
                 }
                 emit_case(&format!("trivial-old:{}:{}", p.name, if bad { "bad-tail" } else { "truncated" }),
                           &format!("(COld {} {} {})", coq_segs(&segs), coq_segs(&res.msgs), res.status));
+            }
+            // (e) a consumer that polls under a timeout and abandons the call between segments
+            if stream.len() >= 2 && stream.len() <= 64 {
+                let mut plans: Vec<(String, Vec<Vec<u8>>)> = Vec::new();
+                let points: Vec<usize> = if thorough || stream.len() <= 24 { (1..stream.len()).collect() }
+                                         else { (0..6).map(|_| rng.range(1, stream.len() as u64 - 1) as usize).collect() };
+                for pnt in points { plans.push((format!("poll-2-way@{}", pnt), cut(&stream, &[pnt]))); }
+                if stream.len() <= 36 { plans.push(("poll-3-byte-segments".into(), stream.chunks(3).map(|c| c.to_vec()).collect())); }
+                for (how, mut segs) in plans {
+                    segs.push(sentinel.clone());
+                    let (res, script) = (p.poll)(&rt, as_server, &segs, cap).unwrap_or_else(|e| tool_fail(e));
+                    runs += 1;
+                    check(&segs, &res, &how);
+                    if to_model && !args.oracle_only {
+                        let mut k = 0;
+                        let evs: Vec<String> = script.iter().map(|poll| if *poll { "EPoll".to_string() } else { k += 1; format!("EArrive {}", cb(&segs[k - 1])) }).collect();
+                        let tag = if how.starts_with("poll-2") { "poll-2-way" } else { "poll-3-byte-segments" };
+                        emit_case(&format!("old:{}:{}", p.name, tag), &format!("(COldPoll [{}] {} {})", evs.join(";"), coq_segs(&res.msgs), res.status));
+                    }
+                }
+            }
+            // (f) streams that end exactly at the end of a full 65535-byte segment; nothing is sent after it
+            if i % 16 == 2 {
+                let fp = if p.filler.is_some() { p } else { &olds[2] };
+                let filler = fp.filler.as_ref().unwrap();
+                let mut small = |rng: &mut Rng| (fp.gen)(rng, Size::Small);
+                for (how, ms, segs) in full_segment_streams(&mut rng, &mut small, filler.as_ref()) {
+                    let srv = rng.bool();
+                    let res = (fp.run)(&rt, srv, &segs, ms.len() + 4).unwrap_or_else(|e| tool_fail(e));
+                    runs += 1;
+                    if let Some(kind) = classify(&ms, &res.msgs, res.status) {
+                        emit_oracle_fail(&format!("old:{}:full-last-segment:{}", fp.name, kind), &short(&format!(
+                            "stack=old protocol={} {}: segment lengths {:?}, the last one is full and ends on a message boundary, nothing sent after it; sent message lengths {:?}; delivered message lengths {:?} status={} {}",
+                            fp.name, how, segs.iter().map(|s| s.len()).collect::<Vec<_>>(), ms.iter().map(|m| m.len()).collect::<Vec<_>>(),
+                            res.msgs.iter().map(|m| m.len()).collect::<Vec<_>>(), res.status, res.info)));
+                    }
+                    if ms.iter().all(|e| single_item(e)) && !args.oracle_only {
+                        emit_case(&format!("old:{}:full-last-segment", fp.name), &format!("(COld {} {} {})", coq_segs(&segs), coq_segs(&res.msgs), res.status));
+                    }
+                }
             }
             // (d) the real sender (send_msg_chunks) towards the real receiver
             if i % 6 == 0 || sz == Size::Large {
@@ -921,6 +1087,32 @@ fn main() {
                 let res = run_new(&rt, &segs).unwrap_or_else(|e| tool_fail(e));
                 runs += 1;
                 emit_case(&format!("trivial-new:{}:truncated", name), &format!("(CNew {} {} {} {})", coq_tagged(&segs), coq_tagged(&res.out), coq_tagged(&res.fin), res.status));
+            }
+            // streams that end exactly at the end of a full 65535-byte segment (both mode bits); nothing follows
+            if i % 16 == 3 {
+                let fw = *rng.pick(&[2usize, 4, 5, 7]);
+                let fchan = n_msg(&mut rng, fw, Size::Small).channel();
+                let filler = |len: usize, fill: u8| -> Vec<u8> { n_filler(fw, vec![fill; len]).payload() };
+                let mut small = |rng: &mut Rng| Some(n_msg(rng, fw, Size::Small).payload());
+                for (how, ms, segs) in full_segment_streams(&mut rng, &mut small, &filler) {
+                    for mode in [0u16, 0x8000] {
+                        let tsegs: Vec<(u16, Vec<u8>)> = segs.iter().map(|s| (fchan | mode, s.clone())).collect();
+                        let res = run_new(&rt, &tsegs).unwrap_or_else(|e| tool_fail(e));
+                        runs += 1;
+                        let got: Vec<Vec<u8>> = res.out.iter().map(|(_, b)| b.clone()).collect();
+                        let mut kind = classify(&ms, &got, res.status);
+                        if kind.is_none() && !res.fin.is_empty() { kind = Some("residue"); }
+                        if let Some(kind) = kind {
+                            emit_oracle_fail(&format!("new:{}:full-last-segment:{}", NEW_NAMES[fw], kind), &short(&format!(
+                                "stack=new protocol={} raw_channel={} {}: segment lengths {:?}, the last one is full and ends on a message boundary, nothing sent after it; sent message lengths {:?}; delivered message lengths {:?}; left in partial_chunks {:?} status={} {}",
+                                NEW_NAMES[fw], fchan | mode, how, segs.iter().map(|s| s.len()).collect::<Vec<_>>(), ms.iter().map(|m| m.len()).collect::<Vec<_>>(),
+                                got.iter().map(|m| m.len()).collect::<Vec<_>>(), res.fin.iter().map(|(c, b)| (*c, b.len())).collect::<Vec<_>>(), res.status, res.info)));
+                        }
+                        if ms.iter().all(|e| single_item(e)) && !args.oracle_only {
+                            emit_case(&format!("new:{}:full-last-segment", NEW_NAMES[fw]), &format!("(CNew {} {} {} {})", coq_tagged(&tsegs), coq_tagged(&res.out), coq_tagged(&res.fin), res.status));
+                        }
+                    }
+                }
             }
             // the real sender (write_message / into_chunks)
             if i % 6 == 1 || sz == Size::Large {
